@@ -31,6 +31,7 @@ type c06Tpl struct {
 	fallback []*c06Tpl
 	loopVar  string
 	coll     string
+	wrap     string // for: how the loop is written - "" <div v-for>, "template" <template v-for>, "slot" the v-for on the <slot> tag itself
 	body     []*c06Tpl
 	file     string
 	props    []c05Prop
@@ -85,7 +86,15 @@ func c06Src(ts []*c06Tpl) string {
 			}
 			fmt.Fprintf(&sb, "<slot%s>%s</slot>", attrs, c06Src(t.fallback))
 		case "for":
-			fmt.Fprintf(&sb, `<div v-for="%s in %s">%s</div>`, t.loopVar, t.coll, c06Src(t.body))
+			switch {
+			case t.wrap == "slot" && len(t.body) == 1 && t.body[0].kind == "slot":
+				inner := c06Src(t.body) // <slot ...>fallback</slot>
+				fmt.Fprintf(&sb, `<slot v-for="%s in %s"%s`, t.loopVar, t.coll, strings.TrimPrefix(inner, "<slot"))
+			case t.wrap == "template":
+				fmt.Fprintf(&sb, `<template v-for="%s in %s">%s</template>`, t.loopVar, t.coll, c06Src(t.body))
+			default:
+				fmt.Fprintf(&sb, `<div v-for="%s in %s">%s</div>`, t.loopVar, t.coll, c06Src(t.body))
+			}
 		case "include":
 			attrs := ""
 			for _, p := range t.props {
@@ -276,7 +285,7 @@ func c06PerFill(r *Run) {
 func runC06(r *Run) {
 	c06PerFill(r)
 	r.Imports = []string{"Base.Val", "Model.Stack", "Model.Loops", "Model.Include", "Model.Slots"}
-	r.Rule("components with default / named slots a, b (with and without fallback, binding props item / k, inside v-for, nested inside another component that forwards an outer slot); includers supplying every subset of the slots " +
+	r.Rule("components with default / named slots a, b (with and without fallback, binding props item / k, inside v-for (on a parent element, on a <template> and on the <slot> tag itself), nested inside another component that forwards an outer slot); includers supplying every subset of the slots " +
 		"as plain children, <template v-slot:name>, <template #name>, with the props under a declared name or destructured; supplied content is dynamic (prints includer variables, names the component defines, slot props) and may include further components; " +
 		"several instances side by side; non-trivial: content supplied, or >= 2 instances, or a slot in a loop")
 	r.Assume("one supply per slot name on an include tag; slot prop expressions are plain paths; text values contain no HTML-special characters")
@@ -294,7 +303,10 @@ func runC06(r *Run) {
 			box = append(box, g.slot("b"))
 		}
 		// list: a slot inside a loop, filled once per item with that item's props
-		lst := []*c06Tpl{{kind: "for", loopVar: "it", coll: "xs", body: []*c06Tpl{g.print("it"), g.slot(Pick(rr, []string{"default", "a"}))}}, g.slot("b")}
+		lst := []*c06Tpl{{kind: "for", loopVar: "it", coll: "xs", wrap: Pick(rr, []string{"", "", "template"}), body: []*c06Tpl{g.print("it"), g.slot(Pick(rr, []string{"default", "a"}))}}, g.slot("b")}
+		if rr.Intn(3) == 0 { // the loop written on the <slot> tag itself: one fill (or fallback) per item, with that item's props
+			lst = append(lst, &c06Tpl{kind: "for", loopVar: "it", coll: "xs", wrap: "slot", body: []*c06Tpl{g.slot(Pick(rr, []string{"default", "a", "b"}))}})
+		}
 		// wrap: includes box and forwards its own slots into it explicitly
 		inner := &c06Tpl{kind: "include", file: "box.vuego", props: []c05Prop{{name: "p", kind: "static", text: "from-wrap"}, {name: "inner", kind: "static", text: "wrap-inner"}}}
 		if rr.Bool() {
